@@ -26,6 +26,10 @@ pub struct Settle {
     pub ticks: u64,
 }
 
+fn my_tid() -> Option<String> {
+    std::fs::read_link("/proc/thread-self").ok().and_then(|p| p.file_name().map(|s| s.to_string_lossy().into_owned()))
+}
+
 fn tids() -> Vec<String> {
     std::fs::read_dir("/proc/self/task")
         .map(|d| d.flatten().map(|e| e.file_name().to_string_lossy().into_owned()).collect())
@@ -38,18 +42,28 @@ impl Settle {
         let fired = Arc::new(AtomicU64::new(0));
         let notify = Arc::new(Notify::new());
         let (f2, n2) = (fired.clone(), notify.clone());
-        let (tid_tx, tid_rx) = std::sync::mpsc::channel::<()>();
+        let (tid_tx, tid_rx) = std::sync::mpsc::channel::<Option<String>>();
         std::thread::spawn(move || {
-            let _ = tid_tx.send(());
-            while let Ok((g, micros)) = tick_rx.recv() {
+            let _ = tid_tx.send(my_tid());
+            while let Ok((mut g, mut micros)) = tick_rx.recv() {
+                // superseded requests (their waiters saw the clock advance first) are skipped
+                while let Ok((g2, m2)) = tick_rx.try_recv() {
+                    g = g2;
+                    micros = m2;
+                }
                 std::thread::sleep(Duration::from_micros(micros));
                 f2.store(g, Ordering::SeqCst);
                 n2.notify_one();
             }
         });
         // the ticker is running now: every thread that exists at this point belongs to the harness
-        let _ = tid_rx.recv();
-        let own = tids().into_iter().collect();
+        // (listing /proc/self/task is not atomic against threads that come and go: the two threads that
+        // matter most are added by their own ids, and the listing is taken twice)
+        let ticker = tid_rx.recv().ok().flatten();
+        let mut own: std::collections::HashSet<String> = tids().into_iter().collect();
+        own.extend(tids());
+        own.extend(ticker);
+        own.extend(my_tid());
         Settle { tick_tx, fired, notify, gen: 0, own, rounds: 0, ticks: 0 }
     }
 
@@ -78,7 +92,11 @@ impl Settle {
     pub async fn barrier(&mut self, snap: &dyn Fn() -> Vec<u64>) -> bool {
         let mut prev = snap();
         let mut calm = 0;
-        for _ in 0..2000 {
+        let started = std::time::Instant::now();
+        let mut dbg_counts = [0u64; 4];
+        // a livelock never becomes quiet: give up after 12 s of wall time (not after a number of rounds:
+        // on a loaded machine a woken helper thread may wait for a CPU for tens of milliseconds)
+        while started.elapsed() < Duration::from_secs(12) {
             self.rounds += 1;
             let idle = self.idle_or_tick(700).await;
             for _ in 0..4 {
@@ -87,15 +105,23 @@ impl Settle {
             let now = snap();
             let same = now == prev;
             prev = now;
+            let quiet = self.threads_quiet();
+            dbg_counts[0] += 1;
+            dbg_counts[1] += idle as u64;
+            dbg_counts[2] += same as u64;
+            dbg_counts[3] += quiet as u64;
+            if !quiet {
+                // let the helper threads have the CPU instead of spinning against them
+                std::thread::sleep(Duration::from_micros(100));
+            }
             if idle {
-                // a plain std::thread (remoc's one-time thread test) does not inhibit auto-advance
-                calm = if same && self.threads_quiet() { calm + 1 } else { 0 };
+                // (a plain std::thread -- remoc's one-time thread test -- does not inhibit auto-advance)
+                calm = if same && quiet { calm + 1 } else { 0 };
                 if calm >= 2 {
                     return true;
                 }
             } else {
                 self.ticks += 1;
-                let quiet = self.threads_quiet();
                 calm = if same && quiet { calm + 1 } else { 0 };
                 if calm >= 3 {
                     return true;
@@ -103,7 +129,7 @@ impl Settle {
             }
         }
         if std::env::var("VH_DEBUG").is_ok() {
-            eprintln!("barrier gave up: last snapshot {:?} threads {}", prev, thread_states());
+            eprintln!("barrier gave up: last snapshot {:?} threads {} rounds/idle/same/quiet {:?} own {:?}", prev, thread_states(), dbg_counts, self.own);
         }
         false
     }
